@@ -233,13 +233,14 @@ async def patch_slave_device(request: core_api.APIRequest, name: str, params: Ge
     if not slave:
         raise core_api.APIError(404, 'no-such-device')
 
+    # Refuse inconsistent requests before applying anything
+    if params.get('poll_interval') and params.get('listen_enabled'):
+        raise core_api.APIError(400, 'listening-and-polling')
+
     if params.get('enabled') is True and not slave.is_enabled():
         await slave.enable()
     elif params.get('enabled') is False and slave.is_enabled():
         await slave.disable()
-
-    if params.get('poll_interval') and params.get('listen_enabled'):
-        raise core_api.APIError(400, 'listening-and-polling')
 
     if params.get('poll_interval') is not None:
         slave.set_poll_interval(params['poll_interval'])
@@ -249,12 +250,15 @@ async def patch_slave_device(request: core_api.APIRequest, name: str, params: Ge
             # We need to know if device supports listening; we therefore call GET /device before enabling it
 
             if slave.is_enabled():
+                # The properties applied so far stay applied; persist them, so that they are not lost at the next restart
                 try:
                     attrs = await slave.api_call('GET', '/device')
                 except Exception as e:
+                    await slave.save()
                     raise slaves_exceptions.adapt_api_error(e) from e
 
                 if 'listen' not in attrs['flags']:
+                    await slave.save()
                     raise core_api.APIError(400, 'no-listen-support')
 
             slave.enable_listen()
